@@ -57,22 +57,37 @@ def parseCoreOp : List String → Option Op
   | ["nextid"] => some .nextId
   | _ => none
 
+def showEntry (g : G) (v : Nat) : String :=
+  toString v ++ (if pers g v = .empty then "" else "!") ++ showEdges (edg g v)
+
 def showObserve (g : G) : String :=
-  "ok " ++ " ".intercalate ((keys g).map (fun v =>
-    toString v ++ (if pers g v = .empty then "" else "!") ++ showEdges (edg g v)))
+  "ok " ++ " ".intercalate ((keys g).map (showEntry g))
+
+def opArgs : Op → List Nat
+  | .add v => [v]
+  | .bind v1 v2 _ => [v1, v2]
+  | .put v _ => [v]
+  | .data v => [v]
+  | .kid v _ => [v]
+  | .kids v => [v]
+  | .keys => []
+  | .nextId => []
+
+/-- what a call shows besides its result: the present vertices, and the entries of the argument vertices that are
+    present after the call -/
+def showPost (g : G) (op : Op) : String :=
+  showNats (keys g) ++ " ; " ++
+    " ".intercalate (((opArgs op).filter (fun v => v < cap g ∧ tag g v ≠ 0)).map (showEntry g))
 
 /-- run a core call on a live graph -/
 def coreCall (g : G) (op : Op) : HS × String :=
-  match op with
-  | .bind v1 v2 _ =>
-    if bindUnmodelled g v1 v2 then (.unmodelled, "unmodelled")
-    else match step g op with
-      | none => (.dead, "panic")
-      | some (g', o) => (.live g', showOut o ++ " ; " ++ showNats (keys g'))
-  | _ =>
-    match step g op with
+  let unm := match op with
+    | .bind v1 v2 _ => bindUnmodelled g v1 v2
+    | _ => false
+  if unm then (.unmodelled, "unmodelled")
+  else match step g op with
     | none => (.dead, "panic")
-    | some (g', o) => (.live g', showOut o ++ " ; " ++ showNats (keys g'))
+    | some (g', o) => (.live g', showOut o ++ " ; " ++ showPost g' op)
 
 def execLine (w : World) (line : String) : World × String :=
   match words line with
